@@ -29,6 +29,9 @@ Inductive case :=
 (** [k] transport errors (temporary or not) injected through WithProxy before the transport works; [calls] =
     transport (proxy function) calls, [requests] = requests that reached the collector. *)
 | CNetErr (exporter : N) (temporary : bool) (k calls requests : nat) (body_ok : bool) (err : N)
+(** An exporter older than its MaxElapsedTime exports twice (idle for MaxElapsedTime + margin before each);
+    every export is answered retry-ably once, then accepted. *)
+| CAged (exporter : N) (max_ns : Z) (attempts1 : nat) (err1 : N) (attempts2 : nat) (err2 : N)
 | CBurst (exporter : N) (gzip : bool) (attempts : nat) (decoded : list N) (own : list bool) (err handled : N).
 
 Definition flag (b : bool) (code : N) : list N := if b then [] else [code].
@@ -88,6 +91,13 @@ Definition check_case (c : case) : list N :=
                          (repeat (classify_http_neterr temporary) k ++ [OSuccess false]) in
       flag (Nat.eqb (Types.attempts m) calls && (class_of_result (res m) =? err)%N) V_MISMATCH ++
       flag (neterr_ok temporary k calls requests body_ok err) V_SPECFAIL
+  | CAged exporter max_ns attempts1 err1 attempts2 err2 =>
+      let script := if (exporter <? 3)%N then [RespHttp 503 None false; RespHttp 200 None false]
+                    else [RespGrpc 14 None false; RespGrpc 0 None false] in
+      let m := model_run true max_ns None script in   (* the clock of an export starts with the export *)
+      flag (Nat.eqb (Types.attempts m) attempts1 && (class_of_result (res m) =? err1)%N &&
+            Nat.eqb (Types.attempts m) attempts2 && (class_of_result (res m) =? err2)%N) V_MISMATCH ++
+      flag (aged_ok attempts1 err1 attempts2 err2) V_SPECFAIL
   | CBurst exporter gzip attempts decoded own err handled =>
       let m := model_run true 0 None [RespHttp 503 None false; RespHttp 200 None false] in
       flag (Nat.eqb (Types.attempts m) attempts && (class_of_result (res m) =? err)%N &&
